@@ -1,0 +1,95 @@
+//! Verification hooks, compiled only with `--cfg smlxl_storage_layout_extractor_verif`.
+//!
+//! They make two things that are otherwise invisible explicit inputs/outputs of a run:
+//!
+//! - the iteration order of the hash-based collections the pipeline walks over
+//!   ([`permute`]), driven by a thread-local, seeded mode, and
+//! - the places where the watchdog is polled ([`poll_site`]).
+//!
+//! With the cfg flag off none of this exists and the crate is unchanged.
+
+use std::cell::RefCell;
+
+/// How [`permute`] reorders the vectors it is given.
+#[derive(Clone, Copy, Debug, Eq, PartialEq)]
+pub enum Order {
+    /// Leave the natural (hash) order alone.
+    Natural,
+    /// Reverse the natural order.
+    Reversed,
+    /// Sort by the `Debug` rendering of the elements.
+    Sorted,
+    /// A seeded Fisher-Yates shuffle (the seed is mixed with the site name).
+    Seeded(u64),
+}
+
+thread_local! {
+    static ORDER: RefCell<Order> = const { RefCell::new(Order::Natural) };
+    static POLLS: RefCell<Vec<&'static str>> = const { RefCell::new(Vec::new()) };
+    static RECORD_POLLS: RefCell<bool> = const { RefCell::new(false) };
+}
+
+/// Sets the order applied by [`permute`] on this thread.
+pub fn set_order(order: Order) {
+    ORDER.with(|o| *o.borrow_mut() = order);
+}
+
+/// Starts (and clears) or stops the recording of poll sites on this thread.
+pub fn record_polls(on: bool) {
+    RECORD_POLLS.with(|r| *r.borrow_mut() = on);
+    POLLS.with(|p| p.borrow_mut().clear());
+}
+
+/// Takes the poll sites recorded so far on this thread (one entry per loop iteration that
+/// reached the polling check of that site).
+#[must_use]
+pub fn take_polls() -> Vec<&'static str> {
+    POLLS.with(|p| std::mem::take(&mut *p.borrow_mut()))
+}
+
+/// Called once per loop iteration immediately before each watchdog polling check.
+pub fn poll_site(tag: &'static str) {
+    if RECORD_POLLS.with(|r| *r.borrow()) {
+        POLLS.with(|p| p.borrow_mut().push(tag));
+    }
+}
+
+fn mix(mut x: u64) -> u64 {
+    x ^= x >> 33;
+    x = x.wrapping_mul(0xff51_afd7_ed55_8ccd);
+    x ^= x >> 33;
+    x = x.wrapping_mul(0xc4ce_b9fe_1a85_ec53);
+    x ^ (x >> 33)
+}
+
+/// Reorders `items` (the elements produced by iterating a hash-based collection at `site`)
+/// according to the current [`Order`].
+#[must_use]
+pub fn permute<T: std::fmt::Debug>(site: &'static str, mut items: Vec<T>) -> Vec<T> {
+    match ORDER.with(|o| *o.borrow()) {
+        Order::Natural => items,
+        Order::Reversed => {
+            items.reverse();
+            items
+        }
+        Order::Sorted => {
+            items.sort_by_cached_key(|i| format!("{i:?}"));
+            items
+        }
+        Order::Seeded(seed) => {
+            // Start from a canonical order so the result depends only on the seed
+            items.sort_by_cached_key(|i| format!("{i:?}"));
+            let mut state = seed;
+            for b in site.bytes() {
+                state = mix(state ^ u64::from(b));
+            }
+            for i in (1..items.len()).rev() {
+                state = mix(state.wrapping_add(0x9e37_79b9_7f4a_7c15));
+                #[allow(clippy::cast_possible_truncation)]
+                let j = (state % (i as u64 + 1)) as usize;
+                items.swap(i, j);
+            }
+            items
+        }
+    }
+}
